@@ -16,7 +16,7 @@ claimed = {
          "The interleavings of v2's background writer loops are not explored (the property does not quantify over schedules). Hook: /verif/check/hooks/zz_verif_v2.go.in + sed-inserted calls, attached by overlay.",
          "DESIGN.md §4 C20"),
  "C06": ("stateless schedule exploration of the real code under a controlled scheduler (iterative preemption bounding, CHESS style), with the Go race detector active inside every enumerated schedule",
-         "Harnesses H1-H12 of one writer (Set/Remove/SaveVersion/DeleteVersionsTo) and 1-2 readers of committed versions (Get, GetWithIndex, Has, Iterator, GetProof, GetImmutable of the latest version and of the version being committed), an exporter (pinning: DeleteVersionsTo vs an open export, synchronous and with the background pruner) and the asynchronous pruning loop (SetCommitting/UnsetCommitting protocol), node cache 0/100, fast index on/off, warm and cold caches: every schedule with at most 2 (quick) / 3 (thorough) preemptions (one less for the 3-thread harnesses and for the -race build) over the scheduling points {every Lock/RLock of iavl's mutexes, every storage call, every channel operation and poll of the rewritten exporter / pruner} is executed on the real code; every reader result must equal the contents of its version as of its commit, a sequential epilogue re-reads every version through every read path, a pinned version must be exported completely and not deleted, and the race detector must stay silent in every schedule.",
+         "Harnesses H1-H13 of one writer (Set/Remove/SaveVersion/DeleteVersionsTo) and 1-2 readers of committed versions (Get, GetWithIndex, Has, Iterator, GetProof, GetImmutable of the latest version and of the version being committed), an exporter (pinning: DeleteVersionsTo vs an open export, synchronous and with the background pruner) and the asynchronous pruning loop (SetCommitting/UnsetCommitting protocol), node cache 0/100, fast index on/off, warm and cold caches: every schedule with at most 2 (quick) / 3 (thorough) preemptions (one less for the 3-thread harnesses and for the -race build) over the scheduling points {every Lock/RLock of iavl's mutexes, every storage call, every channel operation and poll of the rewritten exporter / pruner; in H13 also the lock, the traversal goroutine and the channel of the bundled MemDB backend's iterators} is executed on the real code; every reader result must equal the contents of its version as of its commit, a sequential epilogue re-reads every version through every read path, a pinned version must be exported completely and not deleted, and the race detector must stay silent in every schedule.",
          "The iavl sources are rebuilt with \"sync\" replaced by a shim (check/vrtsrc) that reports lock operations to the scheduler; goroutines and channels of export.go and of the pruning loop in nodedb.go are brought under the scheduler by two site-counting rewriters (a harness whose rewrite does not apply is skipped and named in the evidence); the hand-off uses raw futex calls from //go:norace code so that the scheduler adds no happens-before edge. Not covered: > 3 threads, more preemptions, more than one writer.",
          "DESIGN.md §4 C06"),
  "C16": ("explicit-state exploration of new-format continuations started from legacy-format databases written by the real legacy library (iavl v0.20.0) for an enumerated set of legacy histories incl. every subset of legacy-side deletions",
